@@ -44,6 +44,8 @@ Inductive term :=
 | ParsedBody (f : fmt) (b : body)          (* decodeSegmentFileRequest *)
 | WithID (t : term) (i : id)               (* File.ID := i *)
 | Created (t : term)                       (* the object after File.Create() ran on it (whether or not it returned an error) *)
+| FlatSrc (t : term)                       (* the object after the body of service.FlattenBatches ran on it: Create, then (if that succeeded) FlattenBatches with it as receiver *)
+| SegSrc (t : term)                        (* the object after the body of service.SegmentFile ran on it: Create, then SegmentFile *)
 | WithBatch (t : term) (b : body)          (* service.CreateBatch + repository.StoreBatch *)
 | WithoutBatch (t : term) (k : bid)        (* repository.DeleteBatch *)
 | Flattened (t : term) (i : id)            (* result of File.FlattenBatches, its random ID named i *)
@@ -214,14 +216,14 @@ Definition cstep (c : cstate) (r : request) : cstate * resp :=
       match lookup (store c) i with
       | None => (c, Resp NotFound nf_notfound PNone)
       | Some p => let t := heap c p in
-                  let c1 := set_heap c p (Created t) in
+                  let c1 := set_heap c p (FlatSrc t) in
                   (alloc_if ok c1 (fun n => Flattened (Created t) (Gen n)), Resp Found 0 (PFlat t (Gen (nid c))))
       end
   | RSegment i ok hc hd =>
       match lookup (store c) i with
       | None => (c, Resp NotFound nf_notfound PNone)
       | Some p => let t := heap c p in
-                  let c1 := set_heap c p (Created t) in
+                  let c1 := set_heap c p (SegSrc t) in
                   let c2 := alloc_if (ok && hc) c1 (fun n => CreditOf (Created t) (Gen n)) in
                   let c3 := alloc_if (ok && hd) c2 (fun n => DebitOf (Created t) (Gen n)) in
                   (c3, Resp Found 0 (PSeg t (Gen (nid c1)) (Gen (nid c2))))
@@ -262,7 +264,7 @@ Definition malloc_if (b : bool) (m : mstate) (t : N -> term) : mstate := if b th
    balance leaves the balanced object under the old ID too).  [ideal = true]: the store of
    the property text, where only create, delete, build and the batch endpoints change
    what an ID maps to. *)
-Definition ret (ideal : bool) (t : term) : term := if ideal then t else Created t.
+Definition ret (ideal : bool) (k : term -> term) (t : term) : term := if ideal then t else k t.
 Definition ret2 (ideal : bool) (t t' : term) : term := if ideal then t else t'.
 
 Definition gstep (ideal : bool) (m : mstate) (r : request) : mstate * resp :=
@@ -283,7 +285,7 @@ Definition gstep (ideal : bool) (m : mstate) (r : request) : mstate * resp :=
   | RContents i l =>
       match lookup (mfiles m) i with
       | None => (m, Resp NotFound nf_contents PNone)
-      | Some t => (mset m i (ret ideal t), Resp Found 0 (PText l t))
+      | Some t => (mset m i (ret ideal Created t), Resp Found 0 (PText l t))
       end
   | RValidate i o =>
       match lookup (mfiles m) i with
@@ -321,13 +323,13 @@ Definition gstep (ideal : bool) (m : mstate) (r : request) : mstate * resp :=
   | RFlatten i ok =>
       match lookup (mfiles m) i with
       | None => (m, Resp NotFound nf_notfound PNone)
-      | Some t => let m1 := mset m i (ret ideal t) in
+      | Some t => let m1 := mset m i (ret ideal FlatSrc t) in
                   (malloc_if ok m1 (fun n => Flattened (Created t) (Gen n)), Resp Found 0 (PFlat t (Gen (mnid m))))
       end
   | RSegment i ok hc hd =>
       match lookup (mfiles m) i with
       | None => (m, Resp NotFound nf_notfound PNone)
-      | Some t => let m1 := mset m i (ret ideal t) in
+      | Some t => let m1 := mset m i (ret ideal SegSrc t) in
                   let m2 := malloc_if (ok && hc) m1 (fun n => CreditOf (Created t) (Gen n)) in
                   let m3 := malloc_if (ok && hd) m2 (fun n => DebitOf (Created t) (Gen n)) in
                   (m3, Resp Found 0 (PSeg t (Gen (mnid m1)) (Gen (mnid m2))))
